@@ -1,4 +1,5 @@
 import Reclass.Props.C13
+import Reclass.Props.C13c
 open Reclass
 #print axioms Reclass.C13.fails_iff_some_node_fails
 #print axioms Reclass.C13.error_names_failing_node
@@ -19,3 +20,18 @@ open Reclass
 #print axioms Reclass.C13.lists_sorted_nodup
 #print axioms Reclass.C13.index_closed_form
 #print axioms Reclass.C13.strLe_total_order
+#print axioms Reclass.C13.ne_marker_cons
+#print axioms Reclass.C13.indexPush_literal
+#print axioms Reclass.C13.indexPush_keeps_members
+#print axioms Reclass.C13.mem_indexPush_iff
+#print axioms Reclass.C13.indexPush_marker_name_keeps_plain
+#print axioms Reclass.C13.sortAll_keeps_members
+#print axioms Reclass.C13.index_contains_node
+#print axioms Reclass.C13.index_contains_tilde_names
+#print axioms Reclass.C13.index_contains_tilde_and_const_names
+#print axioms Reclass.C13.stripped_name_not_listed
+#print axioms Reclass.C13.adding_node_renders
+#print axioms Reclass.C13.adding_node_index_exact
+#print axioms Reclass.C13.adding_node_keeps_members
+#print axioms Reclass.C13.adding_tilde_node_keeps_plain
+#print axioms Reclass.C13.adding_node_entry_perm
